@@ -1,10 +1,10 @@
 package main
 
 import (
-	"go/token"
-	"strings"
 	"go/constant"
+	"go/token"
 	"go/types"
+	"strings"
 
 	"golang.org/x/tools/go/ssa"
 )
@@ -16,7 +16,7 @@ type msgSite struct {
 	Call   *ssa.Call
 	Fn     *ssa.Function // function containing the call
 	Format string
-	Ops    []ssa.Value // operands, interface conversions stripped
+	Ops    []ssa.Value   // operands, interface conversions stripped
 	Via    *ssa.Function // wrapper, or nil
 }
 
@@ -147,7 +147,9 @@ func messageSites(p *Prog, fns []*ssa.Function) (sites []msgSite, nonConst []*ss
 }
 
 // An offset appender is an in-module function that completes a message with a position:
-//   func (s *T) errorAt(problem string) error { return errors.New(problem + " at offset " + strconv.Itoa(s.offset())) }
+//
+//	func (s *T) errorAt(problem string) error { return errors.New(problem + " at offset " + strconv.Itoa(s.offset())) }
+//
 // i.e. a string concatenation in which a constant that ends in "offset " is directly followed by the
 // decimal rendering of an integer. Prefix is the parameter that carries the caller's part of the text.
 type offsetAppender struct {
